@@ -209,6 +209,21 @@ def strand(ctx: Ctx):
                     raise KeyError
 
                 callee, args, _kw = eval_ctor(SymInterp(atoms), body)
+                # keyword arguments bound to the constructor's parameters (`_CatCubeCounts(rows_dimension, counts=counts)`)
+                if _kw:
+                    tcls = ctx.repo.opt_cls(SCM, callee) if isinstance(callee, str) else None
+                    init = ctx.repo.lookup(tcls, "__init__") if tcls is not None else None
+                    params = [p_ for p_ in (init.params if init is not None else []) if p_ != "self"]
+                    slots = list(args) + [None] * max(0, len(params) - len(args))
+                    for k_, v_ in _kw.items():
+                        if k_ in params and params.index(k_) >= len(args):
+                            slots[params.index(k_)] = v_
+                        else:
+                            slots = None
+                            break
+                    if slots is None or any(x is None for x in slots):
+                        raise DTop(f"keyword arguments of {callee} not bound")
+                    args = slots
                 got = (callee, [repr(a) for a in args])
                 if ca0:
                     want = ("_CatCubeCounts", ["rows_dimension", "counts[slice_idx]"])
